@@ -290,12 +290,20 @@ impl<'a> Sess<'a> {
 					json!({"method": 5}),
 					json!({"jsonrpc": "2.0", "id": 1}),
 					json!({"jsonrpc": "2.0", "method": "encrypted_request_v3", "params": {"body_enc:": "thisiswrong"}, "id": 1}),
-					json!({"jsonrpc": "2.0", "method": "encrypted_request_v3", "params": {"nonce": "00", "body_enc": ""}, "id": {}}),
 					json!({"method": ["init_secure_api"], "id": 1}),
 					json!({"Method": "init_secure_api", "params": {"ecdh_pubkey": CLIENT_PUB}, "id": 1, "jsonrpc": "2.0"}),
 					json!({"params": {"method": "init_secure_api"}, "id": 1, "jsonrpc": "2.0"}),
 				];
-				let nons = vec![json!(null), json!(5), json!("init_secure_api"), json!(true), json!(1.5)];
+				// values that are not even an (invalid) jsonrpc_core::Call; the last one is an
+				// object whose id has a type no Call variant accepts
+				let nons = vec![
+					json!(null),
+					json!(5),
+					json!("init_secure_api"),
+					json!(true),
+					json!(1.5),
+					json!({"jsonrpc": "2.0", "method": "encrypted_request_v3", "params": {"nonce": "00", "body_enc": ""}, "id": {}}),
+				];
 				let n = (objs.len() + nons.len()) as u64;
 				let i = (v % n) as usize;
 				if i < objs.len() {
@@ -702,6 +710,11 @@ fn probes() -> Vec<Value> {
 		p.push(env("cur", t, "obj", call("create", true, false)));
 		p.push(env("cur", t, "obj", call("init", true, false)));
 	}
+	for v in 0..13 {
+		p.push(cur(json!({"c": "batch", "items": [call("create", true, false), {"c": "junk", "v": v}, call("accounts", true, false)]})));
+	}
+	p.push(cur(json!({"c": "batch", "items": [call("close", true, false), call("open", true, false), call("create", true, false), call("txs", true, false)]})));
+	p.push(cur(json!({"c": "batch", "items": [call("open", true, true), call("accounts", true, false)]})));
 	for f in ["seq", "foo", "init"].iter() {
 		p.push(env("cur", "none", f, call("create", true, false)));
 		p.push(env("old", "none", f, call("create", true, false)));
